@@ -29,7 +29,7 @@ ASSUMPTIONS = [
     "an empty string written to a workbook cell is read back as an empty cell (None)",
     "depth_m = depth_ft x 0.3048 is compared within 4 ulp",
 ]
-REQUIRED = ["json_exports", "json_integer_header_values", "json_text_curves", "json_nan_header_values", "csv_exports", "csv_records_checked",
+REQUIRED = ["json_exports", "json_integer_header_values", "json_text_curves", "json_nan_header_values", "json_object_curves_with_nan", "csv_exports", "csv_records_checked",
             "excel_exports", "excel_text_curves", "df_roundtrips", "depth_unit_cases", "depth_conflict_cases", "depth_unrecognised_cases"]
 SOFT_DEADLINE = {"quick": 100, "thorough": 1500}
 LEVEL_TEXT = "Exploration with independent readers of every export format as oracles over generated and corpus objects."
@@ -96,7 +96,13 @@ def make(ctx, case):
     if case.get("via") == "text" and not case.get("textcurve") and not spec.get("custom"):
         spec["params"] = [p for p in spec["params"] if p[2] is not None]
         spec["via_text"] = {"read": {"mnemonic_case": rng.choice(["upper", "preserve"])}}
-    return lasobj.build(lasio, spec)
+    las = lasobj.build(lasio, spec)
+    if case.get("textcurve") and rng.random() < 0.6 and len(las.curves) and not spec.get("via_text"):
+        # an object-dtype curve mixing text and NaN (what a DataFrame with a missing text value produces)
+        n = len(las.curves[0].data)
+        vals = [("sand" if i % 2 else np.nan) for i in range(n)]
+        las.append_curve("LITHO", np.array(vals, dtype=object), descr="object curve with NaN")
+    return las
 
 
 def run_case(case, ctx):
@@ -202,6 +208,8 @@ def run_json(case, ctx, las):
         if data.dtype.kind in "USO":
             ctx.count("json_text_curves")
         want = [None if (isinstance(x, float) and math.isnan(x)) else x for x in data.tolist()]
+        if data.dtype.kind == "O" and any(w is None for w in want):
+            ctx.count("json_object_curves_with_nan")
         if not isinstance(got, list) or len(got) != len(want) or any(not _same(a, b) for a, b in zip(got, want)):
             V("json-curve-samples", "data[%r] = %r, curve holds %r" % (c.mnemonic, (got or [])[:6] if isinstance(got, list) else got, want[:6]), detail)
     ctx.case_done(["json", hk, ck, case.get("via"), bool(case.get("empty"))], nontrivial(las))
